@@ -148,8 +148,20 @@ def exits(tracer, ret, total=False):
     from .symx import canon_cond
     out = []
 
+    def canon1(g, p):
+        g, p = canon_cond(g, p, total)
+        ga = single_atom(g) if isinstance(g, Poly) else None
+        # "r matches Ok(..)" is r.is_ok(); "r matches Err(..)" is !r.is_ok()
+        if ga and atom_fn(ga) == "matches" and isinstance(atom_args(ga)[0], Poly):
+            key = str(atom_args(ga)[1])
+            if key.startswith("('Ok'"):
+                return repr(app("std::result::Result::<T, E>::is_ok", atom_args(ga)[0])), p
+            if key.startswith("('Err'"):
+                return repr(app("std::result::Result::<T, E>::is_ok", atom_args(ga)[0])), not p
+        return repr(g), p
+
     def canon(gs):
-        return frozenset((repr(canon_cond(g, p, total)[0]), canon_cond(g, p, total)[1]) for g, p in gs if isinstance(g, Poly))
+        return frozenset(canon1(g, p) for g, p in gs if isinstance(g, Poly))
     early = []
     for e in tracer.events:
         if e.callee == "<return>" and not e.loops:
@@ -174,14 +186,53 @@ def exits(tracer, ret, total=False):
         if len(g) == 1:
             base.append((g[0][0], not g[0][1]))
     split(ret, base)
-    return out
+    # under a condition about r.is_ok(), "the payload of r" is the payload of whichever variant r is: one name for it
+    from .symx import replace_atom
+    fixed = []
+    for gs, v in out:
+        for g, p in gs:
+            m = None
+            if g.startswith("std::result::Result::<T, E>::is_ok("):
+                for e in tracer.events:
+                    pass
+            if g.startswith("std::result::Result::<T, E>::is_ok(") and isinstance(v, (Poly, tuple, list)):
+                # find the result value r by scanning v for payload0 atoms whose argument prints like the guard's argument
+                inner = g[len("std::result::Result::<T, E>::is_ok("):-1]
+                stack = [v]
+                seen = None
+                while stack and seen is None:
+                    x = stack.pop()
+                    if isinstance(x, Poly):
+                        for mono in x.t:
+                            for a_, _ in mono:
+                                if a_[0] == "f":
+                                    if a_[1] == "payload0" and isinstance(a_[2], tuple) and a_[2][0] == "P" and repr(a_[2][1]) == inner:
+                                        seen = a_
+                                        break
+                                    stack.extend(k[1] for k in a_[2:] if isinstance(k, tuple) and len(k) == 2 and k[0] == "P")
+                    elif isinstance(x, (tuple, list)):
+                        stack.extend(y for y in x if isinstance(y, (Poly, tuple, list)))
+                if seen is not None:
+                    v = replace_atom(v, seen, app("either_payload", seen[2][1]))
+        fixed.append((gs, v))
+    return fixed
 
 
 def elementwise(F, t, value, S, x="x"):
     """value == S.iter().[copied()].map(f)...collect(): return f applied to the variable x (None if not an order- and
     length-preserving elementwise image of S)"""
     a = single_atom(value) if isinstance(value, Poly) else None
-    if not (a and atom_fn(a) == "std::iter::Iterator::collect"):
+    if _is_fresh_vec(value):
+        # explicit loop: let mut v = Vec::with_capacity(n); for &e in S { v.push(f(e)) }
+        pushes = [e for e in t.events if e.callee.endswith("::push") and _is_fresh_vec(e.args[0]) and vkey(e.args[0]) in (vkey(value),) or
+                  (e.callee.endswith("::push") and _is_fresh_vec(e.args[0]))]
+        if len(pushes) == 1 and not pushes[0].guards and len(pushes[0].loops) == 1:
+            lp = pushes[0].loops[0]
+            if lp[0] == "iter" and lp[2] in (("elems", S), ("elems", vkey(S))) and isinstance(lp[1], str):
+                from .symx import replace_atom
+                return replace_atom(pushes[0].args[1], single_atom(app("elem", S, var(lp[1]))), var(x))
+        return None
+    if not (a and (atom_fn(a) == "std::iter::Iterator::collect" or (atom_fn(a) or "").endswith("::from_iter"))):
         return None
     d = a[2]
     if not (isinstance(d, tuple) and d[0] == "iterdesc"):
